@@ -238,7 +238,10 @@ int main(int argc, char **argv)
         std::cout << "CONFIG-ERR\n";
       } else {
         colvar_grid<double> *g = state_grid(proxy->colvars, sp);
-        if (cmd == "SW") {
+        if (a.size() > p && a[p] == "GRID") {
+          // only the grid as init_from_colvars/init_from_boundaries/setup leave it
+          print_grid(*g);
+        } else if (cmd == "SW") {
           std::ostringstream os; os.setf(std::ios::scientific, std::ios::floatfield); os.precision(14);
           g->write_restart(os);
           std::cout << "T " << bar(os.str()) << "\n";
